@@ -42,7 +42,8 @@ func runC05(c *Ctx) {
 				}
 				for _, pr := range [][2]ssa.Value{{f.X, f.Y}, {f.Y, f.X}} {
 					if isLen(pr[0]) {
-						if k, ok := constInt(pr[1]); ok && k != 0 {
+						// a cap at or above what the writer can emit (its name buffer is 255 bytes) restricts nothing
+						if k, ok := constInt(pr[1]); ok && k != 0 && k < 255 {
 							caps = append(caps, fmt.Sprintf("%s %d", f.Op, k))
 						}
 					}
